@@ -110,11 +110,31 @@ fn judge_at(c: &Case, h: &[u8], stream: &Vec<u8>, st: &mut Stats) -> Verdict {
     // declared length) when the reference says so; an implementation that accepts it but reports fewer header bytes
     // still owes "incomplete" for every proper prefix of the wire header (else a receiver stops early)
     let wire_complete = matches!(v1_ref(h), V1Ref::Accept { len, .. } if len == h.len()) || matches!(v2_ref(h), V2Ref::Accept { len, .. } if len == h.len());
-    let (is_v1, accepted) = match &one {
+    let (is_v1, mut accepted) = match &one {
         Ok(HeaderResult::V1(Ok(x))) => (true, x.header.len() == h.len() || wire_complete),
         Ok(HeaderResult::V2(Ok(x))) => (false, x.header.len() == h.len() || wire_complete),
         _ => (false, false),
     };
+    // A candidate the reference does not call a header but the parser accepts (a leniency): "its header bytes" are then the
+    // bytes of the input up to where the reported header ends - the reported text may start behind something the parser
+    // skipped, or end before bytes that merely follow. Every proper prefix of THAT is owed an incomplete result.
+    let mut h = h;
+    if !accepted {
+        let reported: Option<&[u8]> = match &one {
+            Ok(HeaderResult::V1(Ok(x))) => Some(x.header.as_bytes()),
+            Ok(HeaderResult::V2(Ok(x))) => Some(x.header.as_ref()),
+            _ => None,
+        };
+        if let Some(rep) = reported {
+            if !rep.is_empty() && rep.len() <= h.len() {
+                if let Some(at) = h.windows(rep.len()).position(|w| w == rep) {
+                    h = &h[..at + rep.len()];
+                    accepted = true;
+                    st.class("accepted-although-the-reference-rejects");
+                }
+            }
+        }
+    }
     if !accepted {
         // not an accepted complete header: C01/C02 report it if the reference disagrees
         if matches!(v1_ref(h), V1Ref::Accept { len, .. } if len == h.len()) || matches!(v2_ref(h), V2Ref::Accept { len, .. } if len == h.len()) {
@@ -520,7 +540,7 @@ fn variants_ok() -> Verdict {
 }
 
 fn gen_case(t: &mut Tape) -> Case {
-    let header = match t.weighted(&[5, 4, 1]) {
+    let header = match t.weighted(&[5, 4, 2]) {
         0 => gen::gen_valid_line(t, true),
         1 => gen::gen_v2_header(t).bytes,
         _ => {
